@@ -17,7 +17,7 @@ import sys
 from reactivex import Observable
 
 from .core import HarnessError
-from .lab import Lab, Probe, _Logged
+from .lab import BudgetExceeded, Lab, Probe, SpinGuard, _Logged
 from .pipes import OPS, Builder
 
 INF = float("inf")
@@ -235,7 +235,17 @@ class DProbe(Probe):
     def _subscribe_with_snap(self, obs, scheduler):
         self.sub_tick = self.lab.now()
         sch = self.lab.sched if scheduler == "lab" else scheduler
-        d = obs.subscribe(self.on_next, self.on_error, self.on_completed, scheduler=sch)
+        try:
+            d = obs.subscribe(self.on_next, self.on_error, self.on_completed, scheduler=sch)
+        except SpinGuard:
+            self.lab.inconclusive = "spin"
+            return None
+        except BudgetExceeded:
+            self.lab.inconclusive = "budget"
+            return None
+        except (RecursionError, Diverged):
+            self.lab.inconclusive = "recursion"
+            return None
         self.disposable = d
         if self._pending_dispose:
             self.open_before = snapshot_open(self.lab)
@@ -334,7 +344,7 @@ def gw_index(pipe):
     """Largest index of a group/window-producing operator in the pipeline, or None."""
     g = None
     for i, (n, _) in enumerate(pipe["ops"]):
-        tags = OPS[n].tags
+        tags = OPS[n].tags if n in OPS else (("group",) if n.startswith("group_by") else ())
         if "window" in tags or "group" in tags:
             g = i
     return g
